@@ -568,7 +568,7 @@ pub fn spline_axes(quick: bool, n_min: usize) -> Vec<Axis> {
         v.extend(alpha::long_word_axes(
             &alpha::h4(),
             "L",
-            &[8, 12],
+            &[8, 12, 24, 32],
             1,
             &[0.0],
         ));
